@@ -1,6 +1,7 @@
 import IgrisModel.Common.Proto
 import IgrisModel.C13.Model
 import IgrisModel.C13.Shape
+import IgrisModel.C13.Tie
 open Igris.Proto Igris.C13
 
 def hexOfChars (cs : List Char) : String :=
@@ -39,6 +40,46 @@ def shapeOfFmt (fmt : List Char) (stars : List Igris.C06.Arg) (neg : Bool) (text
         else if c = 'g' || c = 'G' then some .g else none
       conv.map fun cv => isoShape cv ops width precision neg text
 
+/-- what the tie canonicalisation needs of the directive: length of the literal text in front of and
+behind it, the conversion in lower case, the precision (C06 parser, as `directive` uses it) -/
+structure DirInfo where
+  pre : Nat
+  post : Nat
+  conv : Char
+  hasPrec : Bool
+  prec : Int
+  ops : Igris.C06.Ops
+
+def dirInfo (fmt : List Char) (stars : List Igris.C06.Arg) : Option DirInfo :=
+  let pre := fmt.takeWhile (· ≠ '%')
+  let begin := fmt.dropWhile (· ≠ '%')
+  let (s, ops) := Igris.C06.flagsLoop begin.tail {}
+  match Igris.C06.getWidth s stars ops with
+  | none => none
+  | some (_, s, stars, ops) =>
+    match Igris.C06.getPrec s stars ops with
+    | none => none
+    | some (precision, s, _, ops) =>
+      let (s, ops) := Igris.C06.getLen s ops
+      let c := Igris.C06.hd s
+      some { pre := pre.length, post := s.tail.length, conv := c.toLower, hasPrec := ops.prec, prec := precision, ops := ops }
+
+/-- result field of a floating conversion: the text byte for byte, or - in the tie class of `Tie.lean` - the
+lower neighbour as an exact rational (round 3: the property leaves the direction of a tie open) -/
+def showPF (fmt : List Char) (st : List Igris.C06.Arg) (x : FV) (r : Res) : String :=
+  match r, x with
+  | .done out _, .fin _ m =>
+    match dirInfo fmt st with
+    | some d =>
+      let body := (out.drop d.pre).take (out.length - d.pre - d.post)
+      match tieCanon d.conv d.hasPrec d.prec m body with
+      | some q => "T " ++ toString q.num ++ "/" ++ toString q.den
+      | none =>
+        -- a tie of the engine's own scaled value that is not a tie of the argument (unit finer than the engine's error)
+        if tieSeen b64A cfgNow FUEL (.fin false m) d.prec d.ops (d.conv = 'e') (d.conv = 'g') then "Tf" else showRes r
+    | none => showRes r
+  | _, _ => showRes r
+
 def stepLine (_ : Unit) (line : String) : Unit × String :=
   let r : Option String :=
     match words line with
@@ -46,7 +87,7 @@ def stepLine (_ : Unit) (line : String) : Unit × String :=
       let fmt ← (parseBytes? f).map fun bs => bs.map fun c => Char.ofNat c.toNat
       let bits ← parseHexNat? b
       let st ← stars.mapM parseStar
-      pure (showRes (printfF b64A cfgNow fmt st (ofBits bits) (decide (bits ≥ 2 ^ 63))))
+      pure (showPF fmt st (ofBits bits) (printfF b64A cfgNow fmt st (ofBits bits) (decide (bits ≥ 2 ^ 63))))
     | "sh" :: f :: n :: t :: stars | "shm" :: f :: n :: t :: stars => do
       let fmt ← (parseBytes? f).map fun bs => bs.map fun c => Char.ofNat c.toNat
       let text ← (parseBytes? t).map fun bs => bs.map fun c => Char.ofNat c.toNat
@@ -58,7 +99,7 @@ def stepLine (_ : Unit) (line : String) : Unit × String :=
       let se ← parseHexNat? se
       let m ← parseHexNat? m
       let st ← stars.mapM parseStar
-      pure (showRes (printfF b64A cfgNow fmt st (cvt64 (ofBits80 se m)) (decide (se ≥ 32768)) true))
+      pure (showPF fmt st (cvt64 (ofBits80 se m)) (printfF b64A cfgNow fmt st (cvt64 (ofBits80 se m)) (decide (se ≥ 32768)) true))
     | ["ar", "cvt", se, m] => do
       let se ← parseHexNat? se
       let m ← parseHexNat? m
